@@ -21,7 +21,7 @@ RULE = (
     "controllers only by members so the file stays loadable), option-chunk bytes replaced by arbitrary bytes, SLNK/SLnK entries replaced by "
     "indices of existing modules / small slot numbers / -1, PDTA cells replaced by valid cells; thorough additionally enumerates every CVAL of "
     "every fixture x 6 boundary values. Oracle: Y = save(load(X)); save(load(Y_n)) == Y_n for n = 1..3 (5 thorough); snapshot and raw link tables before save == "
-    "after (for loaded and for freshly constructed objects); two saves of one object are identical. Files that do not load are outside the quantifier and counted. non-trivial = X carries an "
+    "after (for loaded and for freshly constructed objects); two saves of one object are identical; a loaded object saved before anyone looked at it writes the same bytes as one whose attributes were all read first, and reading them between two saves changes nothing. Files that do not load are outside the quantifier and counted. non-trivial = X carries an "
     "out-of-range stored value, or a freed link slot, or mutated option bytes"
 )
 ASSUMPTIONS = [
